@@ -287,7 +287,7 @@ func init() {
 					if cl == "download" && pad >= 0 || cl == "padded-download" && pad < 0 {
 						continue
 					}
-					if ch+max(pad, 0)+1 > 16384 {
+					if pad >= 0 && ch+pad+1 > 16384 {
 						continue
 					}
 					if item++; !c.Mine(item) {
